@@ -5,6 +5,7 @@ package main
 import (
 	"fmt"
 	"go/types"
+	"sort"
 	"strings"
 
 	"golang.org/x/tools/go/ssa"
@@ -75,19 +76,24 @@ var spParamNames = map[string]string{
 	"time.Time": "now", "url.URL": "cur", "[]string": "ids", "saml.signatureRequirement": "sigreq", "string": "str",
 }
 
-// validatorInline: callees that are pure validators of a schema object (error-only result, a schema
-// typed parameter): validateRequestID, validateAssertion, validateAudienceRestriction, validateLogoutResponse.
+// validatorInline: the inlining policy of the validation tables. Every library function of the root
+// package with an error-only result is analysed as part of its caller (bound 3), so that moving checks
+// into helpers does not change the table; the signature validator and the unmarshal helpers stay opaque
+// (their results are the atoms the signature rules speak about).
 func validatorInline(p *Prog, sc *Scope) func(*ssa.Function) bool {
+	sr := findSigRoles(p)
+	opaque := map[*ssa.Function]bool{}
+	for _, v := range sr.Validators {
+		opaque[v] = true
+	}
+	for f := range sr.Unmarshal {
+		opaque[f] = true
+	}
 	return func(f *ssa.Function) bool {
-		if !p.InLibrary(f) || f.Signature.Results().Len() != 1 || errIndex(f) != 0 {
+		if !p.InLibrary(f) || f.Pkg == nil || f.Pkg.Pkg.Path() != modPath || opaque[f] {
 			return false
 		}
-		for _, prm := range f.Params[min(1, len(f.Params)):] {
-			if sc.isSchemaType(prm.Type()) {
-				return true
-			}
-		}
-		return false
+		return f.Signature.Results().Len() == 1 && errIndex(f) == 0
 	}
 }
 
@@ -636,54 +642,67 @@ func ruleC03(r *Report) {
 // checkBadStatus: the reject exit taken when the status differs returns ErrBadStatus{Status: value}.
 func checkBadStatus(r *Report, m *spModel, fn *ssa.Function, rule string) {
 	p := m.P
-	fc := m.A.ctxWith(fn, typedEnv(fn, spParamNames), "", 0)
+	top := m.A.ctxWith(fn, typedEnv(fn, spParamNames), "", 0)
+	top.ensureConds()
+	_ = top.NotAcceptFormula() // materialise the inlined contexts
 	B := m.A.B
 	cons := fmt.Sprintf("%s: non-Success status returned as ErrBadStatus{Status: status value}", p.FnName(fn))
 	found := false
-	for _, b := range fn.Blocks {
-		for _, in := range b.Instrs {
-			mi, ok := in.(*ssa.MakeInterface)
-			if !ok || !typeIs(mi.X.Type(), modPath, "ErrBadStatus") {
-				continue
-			}
-			// the struct value: load of an alloc whose Status field was stored
-			var statusAP string
-			if ld, ok := mi.X.(*ssa.UnOp); ok {
-				if al, ok := ld.X.(*ssa.Alloc); ok {
-					for _, rf := range *al.Referrers() {
-						if fa, ok := rf.(*ssa.FieldAddr); ok {
-							for _, r2 := range *fa.Referrers() {
-								if st, ok := r2.(*ssa.Store); ok {
-									statusAP = fc.AP(st.Val)
+	// the value may be built in the function itself or in a helper analysed as part of it
+	var ctxs []*FuncCtx
+	for _, fc := range m.A.ctxs {
+		if fc == top || strings.HasPrefix(fc.prefix, p.FnName(fn)+"/") {
+			ctxs = append(ctxs, fc)
+		}
+	}
+	sort.Slice(ctxs, func(i, j int) bool { return ctxs[i].prefix < ctxs[j].prefix })
+	for _, fc := range ctxs {
+		fc.ensureConds()
+		for _, b := range fc.Fn.Blocks {
+			for _, in := range b.Instrs {
+				mi, ok := in.(*ssa.MakeInterface)
+				if !ok || !typeIs(mi.X.Type(), modPath, "ErrBadStatus") {
+					continue
+				}
+				var statusAP string
+				if ld, ok := mi.X.(*ssa.UnOp); ok {
+					if al, ok := ld.X.(*ssa.Alloc); ok {
+						for _, rf := range *al.Referrers() {
+							if fa, ok := rf.(*ssa.FieldAddr); ok {
+								for _, r2 := range *fa.Referrers() {
+									if st, ok := r2.(*ssa.Store); ok {
+										statusAP = fc.AP(st.Val)
+									}
 								}
 							}
 						}
 					}
 				}
-			}
-			// block condition: status atom false
-			okCond := false
-			for _, n := range B.Support(fc.Cond(b)) {
-				ai := m.A.Atoms[n]
-				if ai != nil && ai.Kind == "eq" && strings.Contains(n, "StatusCode.Value") && strings.Contains(n, "StatusSuccess") && fc.Implied(b, B.Not(B.Var(n))) {
-					okCond = true
-				}
-			}
-			// flows to the error result (directly returned or stored into PrivateErr of the returned error)
-			flows := false
-			for _, rf := range *mi.Referrers() {
-				switch y := rf.(type) {
-				case *ssa.Return:
-					flows = true
-				case *ssa.Store:
-					if fa, ok := y.Addr.(*ssa.FieldAddr); ok && fieldName(fa.X.Type(), fa.Field) == "PrivateErr" {
-						flows = true
+				okCond := false
+				for _, n := range B.Support(fc.Cond(b)) {
+					ai := m.A.Atoms[n]
+					if ai != nil && ai.Kind == "eq" && strings.Contains(n, "StatusCode.Value") && strings.Contains(n, "StatusSuccess") && fc.Implied(b, B.Not(B.Var(n))) {
+						okCond = true
 					}
 				}
+				flows := false
+				for _, rf := range *mi.Referrers() {
+					switch y := rf.(type) {
+					case *ssa.Return:
+						flows = true
+					case *ssa.Store:
+						if fa, ok := y.Addr.(*ssa.FieldAddr); ok && fieldName(fa.X.Type(), fa.Field) == "PrivateErr" {
+							flows = true
+						}
+						if _, ok := y.Addr.(*ssa.Alloc); ok {
+							flows = true // spilled result
+						}
+					}
+				}
+				found = true
+				r.Check(okCond && flows && strings.HasSuffix(statusAP, "Status.StatusCode.Value"), rule, cons, p.InstrPos(in),
+					"ErrBadStatus{Status: "+statusAP+"} under status != Success", "ErrBadStatus is not built from the status value under the status-mismatch condition, or does not reach the returned error")
 			}
-			found = true
-			r.Check(okCond && flows && strings.HasSuffix(statusAP, "Status.StatusCode.Value"), rule, cons, p.InstrPos(in),
-				"ErrBadStatus{Status: "+statusAP+"} under status != Success", "ErrBadStatus is not built from the status value under the status-mismatch condition, or does not reach the returned error")
 		}
 	}
 	if !found {
